@@ -40,8 +40,6 @@ Definition wit_collision : value :=
     (VObj (wm1, [lit "X"]) [(lit "a", VInt 1)]).
 (* Outer(any=QName(t)) where t = a, double quote, b *)
 Definition wit_qname : value := outer VNone VNone VNone fixed (VQName (lit "a""b")) VNone.
-(* Outer(any=XmlDuration(t)) where t = P1Y followed by a newline *)
-Definition wit_duration : value := outer VNone VNone VNone fixed (VDuration (lit "P1Y" ++ [10%N])) VNone.
 (* o = Outer(); o.fx = 'changed' *)
 Definition wit_init : value := outer VNone VNone VNone (VStr (lit "changed")) VNone VNone.
 (* a non-trivial instance inside the guard: nested inner class, NaN, enum, Decimal NaN,
@@ -52,14 +50,14 @@ Definition wit_ok : value :=
     (VObj (wm1, [lit "Outer"; lit "Inner"]) [(lit "v", VFloat fl_nan)])
     (VEnum (wm1, [lit "Color"]) (lit "RED")) fixed
     (VList [VDecimal (lit "NaN"); VQName (lit "{u}l"); VStr (lit "a'b""c\" ++ [10%N]); VFloat fl_neg_inf;
-            VTuple []; VDict [(VStr (lit "k"), VBytes BHex [0%N; 39%N])]])
+            VTuple []; VDuration (lit "P1Y"); VDict [(VStr (lit "k"), VBytes BHex [0%N; 39%N])]])
     VNone.
 
 (* Outer(any=datetime.date(2020, 1, 2)) *)
 Definition wit_std : value := outer VNone VNone VNone fixed (VStd SDate [2020; 1; 2]) VNone.
 
 Definition witnesses : list value :=
-  [wit_tuple; wit_enum; wit_collision; wit_qname; wit_duration; wit_init; wit_std; wit_ok].
+  [wit_tuple; wit_enum; wit_collision; wit_qname; wit_init; wit_std; wit_ok].
 
 (* the other clauses of the guard hold: each witness isolates one clause *)
 Definition only_array W v := negb (g_array W v) && g_enum W v && g_imports W v && g_raw W v && g_init W v && g_std W v.
@@ -77,8 +75,6 @@ Lemma import_collision_refuted :
   wf W_wit wit_collision = true /\ only_imports W_wit wit_collision = true /\ roundtrip W_wit wit_collision = false.
 Proof. vm_compute. auto 10. Qed.
 Lemma qname_refuted : wf W_wit wit_qname = true /\ only_raw W_wit wit_qname = true /\ roundtrip W_wit wit_qname = false.
-Proof. vm_compute. auto 10. Qed.
-Lemma duration_refuted : wf W_wit wit_duration = true /\ only_raw W_wit wit_duration = true /\ roundtrip W_wit wit_duration = false.
 Proof. vm_compute. auto 10. Qed.
 Lemma init_false_refuted : wf W_wit wit_init = true /\ only_init W_wit wit_init = true /\ roundtrip W_wit wit_init = false.
 Proof. vm_compute. auto 10. Qed.
